@@ -16,6 +16,7 @@ use crate::mv::*;
 use crate::opts::*;
 use crate::props::c01::ryu_text;
 use crate::props::c02::in_domain;
+use crate::props::c03::Shape;
 use crate::props::c11::{float_ok, g_layout_value};
 use crate::props::Prop;
 use crate::util::*;
@@ -511,6 +512,20 @@ fn run(ctx: &mut Ctx) {
     for c in children {
         ctx.absorb(c);
     }
+    // long streams, in child processes on a 2 MiB stack: hundreds of thousands
+    // of comment lines, blank bytes or complete datums in one stream; every
+    // datum comes out, in order, and then the end (a reader that pays stack or
+    // a budget per line or per datum breaks only here)
+    let sh = long_streams(tier);
+    let specs: Vec<Json> = sh.iter().map(|s| serde_json::to_value(s).unwrap()).collect();
+    let outs = crate::child::spawn_all("c03", &specs, std::time::Duration::from_secs(60), 12);
+    for (s, o) in sh.iter().zip(outs.iter()) {
+        match judge_long(s, o) {
+            Ok(r) => ctx.observe("long-stream", r),
+            Err(inc) => ctx.inconclusive.push(inc),
+        }
+    }
+    ctx.flush_failures();
     for c in ctx.sample_values("seq", &g_seq(), 3) {
         ctx.add_sample("seq", json!({"case": short(&c)}));
     }
@@ -520,11 +535,72 @@ fn run(ctx: &mut Ctx) {
     ctx.required_classes = vec![
         "seq:default", "seq:elisp", "seq:empty", "seq:final-comment-without-newline", "ws:space", "ws:tab", "ws:cr",
         "ws:lf", "ws:ff", "ws:comment", "trivia:checked", "trivia:ff", "trivia:comment", "iter:checked",
-        "iter:error-item", "iter:continued-after-error", "hist:checked", "hist:malformed-item", "hist:expect_end",
+        "iter:error-item", "iter:continued-after-error", "hist:checked", "hist:malformed-item", "hist:expect_end", "long-stream",
     ];
 }
 
+const LONG_UNITS: [(&str, usize); 12] = [
+    (";c\n", 0),
+    (" ;\n\t", 0),
+    ("\n", 0),
+    (" ", 0),
+    ("\r\n", 0),
+    ("a ", 1),
+    ("\"s\" ", 1),
+    ("() ", 1),
+    ("#t\n;x\n", 1),
+    ("1 ;c\n2\n", 2),
+    ("(a . b);\n", 1),
+    ("#(1);;\n;\n", 1),
+];
+
+fn long_streams(tier: Tier) -> Vec<Shape> {
+    let mut out = Vec::new();
+    for (i, (u, _)) in LONG_UNITS.iter().enumerate() {
+        for datum in [false, true] {
+            // datum parsing from a str recomputes positions: the long ones come from a stream
+            let source = if datum || i % 2 == 0 { 2 } else { 0 };
+            out.push(Shape { unit: vec![u.to_string()], n: tier.pick(60_000, 400_000), close: true, groups: 1, q: 0, source, datum, iterated: true, probe: true });
+        }
+    }
+    out
+}
+
+fn judge_long(s: &Shape, out: &crate::child::ChildOutcome) -> Result<CaseResult, String> {
+    use crate::child::ChildOutcome;
+    let per = LONG_UNITS.iter().find(|(u, _)| *u == s.unit.concat()).map(|(_, k)| *k).unwrap_or(0);
+    let api = format!("api={}-iter src={}", if s.datum { "datum" } else { "value" }, ["str", "slice", "reader"][s.source as usize % 3]);
+    let name = format!("unit={:?} n>=10^4", s.unit.concat());
+    let case = json!({"long": s});
+    let fail = |sig: String, msg: String| Ok(Err(Failure::new(format!("C12 long-stream {} {}", sig, name), format!("{} [{}]", msg, api), case.clone())));
+    match out {
+        ChildOutcome::Timeout => Err(format!("watchdog expired for long stream {} ({})", name, api)),
+        ChildOutcome::SpawnError(e) => Err(format!("cannot spawn child: {}", e)),
+        ChildOutcome::Signal(sig, err) => fail(format!("mode=abort signal={}", sig), format!("iterating a stream of {} repetitions of {:?} killed the process with signal {}: {}", s.n, s.unit.concat(), sig, clip(err, 200))),
+        ChildOutcome::Exit(code, text) => fail(format!("mode=panic-or-exit code={}", code), format!("iterating a stream of {} repetitions of {:?} ended the process with status {}: {}", s.n, s.unit.concat(), code, clip(text, 300))),
+        ChildOutcome::Result(j) => {
+            let oks = j["oks"].as_u64().unwrap_or(0) as usize;
+            let errs = j["errs"].as_u64().unwrap_or(0) as usize;
+            let ended = j["ended"].as_bool().unwrap_or(false);
+            let last = j["last_ok"].as_str().unwrap_or("");
+            let want = s.n * per + 2;
+            if errs != 0 || oks != want || !ended || last != "(probe 1)" {
+                return fail(
+                    "mode=items-differ".into(),
+                    format!("a stream of {} repetitions of {:?}, then a, then (probe 1) holds {} datums; iteration gave {} items and {} errors {:?}, last item {:?}, end reported: {}", s.n, s.unit.concat(), want, oks, errs, j["errors"], last, ended),
+                );
+            }
+            Ok(Ok(Eval::new(true, digest_of(s)).class("long-stream")))
+        }
+    }
+}
+
 fn replay(_sub: &str, case: &Json) -> Option<CaseResult> {
+    if let Some(l) = case.get("long") {
+        let s: Shape = serde_json::from_value(l.clone()).ok()?;
+        let out = crate::child::spawn("c03", &serde_json::to_value(&s).ok()?, std::time::Duration::from_secs(60));
+        return judge_long(&s, &out).ok();
+    }
     let c: Case = serde_json::from_value(case.get("case")?.clone()).ok()?;
     Some(check_case(&c))
 }
